@@ -9,23 +9,9 @@ use vstd::std_specs::iter::IteratorSpec;
 
 verus! {
 
-pub open spec fn is_alpha(c: u8) -> bool { (0x41 <= c <= 0x5a) || (0x61 <= c <= 0x7a) }
-pub open spec fn is_alnum(c: u8) -> bool { is_alpha(c) || (0x30 <= c <= 0x39) }
-pub open spec fn stem_char(c: u8) -> bool { c == 0x2d || c == 0x5f || is_alnum(c) }
-
+//@include shared/mft_vocab.v.rs
 pub assume_specification [ u8::is_ascii_alphabetic ] (c: &u8) -> (r: bool) ensures r == is_alpha(*c);
 pub assume_specification [ u8::is_ascii_alphanumeric ] (c: &u8) -> (r: bool) ensures r == is_alnum(*c);
-
-/// shape of an RFC 9286 4.2.2 name except for the letters of the extension:
-/// k >= 1 stem characters, a dot at k, exactly three more bytes
-pub open spec fn shape(s: Seq<u8>, k: int) -> bool {
-    1 <= k && s.len() == k + 4 && s[k] == 0x2e
-    && forall|i: int| 0 <= i < k ==> stem_char(#[trigger] s[i])
-}
-/// the full predicate of the property statement
-pub open spec fn valid_mft_name(s: Seq<u8>) -> bool {
-    exists|k: int| shape(s, k) && is_alpha(s[k + 1]) && is_alpha(s[k + 2]) && is_alpha(s[k + 3])
-}
 
 /// the sequence of references a slice iterator over v yields
 pub open spec fn refs<'a, T>(v: Seq<T>) -> Seq<&'a T> { v.map_values(|x: T| &x) }
